@@ -610,18 +610,18 @@ def make_module(I):
 
     reg("ones", ones)
 
-    def arange(I, st, n, dtype=None):
-        """np.arange(n[, dtype=float/np.float64/int]) for a concrete non-negative int n: 0, 1, ..., n-1"""
-        if not isinstance(n, int) or isinstance(n, bool):
-            raise Unsupported("np.arange with a symbolic / non-integer bound")
+    def arange(I, st, *a, dtype=None):
+        """np.arange(stop) / np.arange(start, stop) with concrete ints (step 1): ints, or floats with dtype=float"""
+        if len(a) not in (1, 2) or not all(isinstance(x, int) and not isinstance(x, bool) for x in a):
+            raise Unsupported("np.arange with non-integer / symbolic arguments or a step")
         isfloat = isinstance(dtype, BuiltinClass) and dtype.name == "float"
         if dtype is not None and not isfloat and not (isinstance(dtype, BuiltinClass) and dtype.name == "int"):
             raise Unsupported("np.arange dtype")
-        m = max(n, 0)
-        return st.alloc(NdE((m,), [Fraction(x) if isfloat else x for x in range(m)]))
+        vals = list(range(*a))
+        return st.alloc(NdE((len(vals),), [Fraction(v) if isfloat else v for v in vals]))
 
     reg("arange", arange)
-    reg("dot", lambda I, st, a, b: dot(I, st, a, b))
+    reg("dot",lambda I, st, a, b: dot(I, st, a, b))
 
     def elementwise(fn):
         def f(I, st, a, k):
